@@ -2,6 +2,7 @@
    Model: Model/CallGraph.v instantiated with the call graph and guard set regenerated from SSA. *)
 From Coq Require Import List NArith Bool Arith.
 From GV Require Import Model.Walk Model.CallGraph Proofs.CallGraphP Gen.CallGraphTable Inst.Inst_C02.
+From GV Require Import Gen.LexTables Model.Lexer Proofs.LexerP.
 Import ListNotations.
 
 (* every call stack of the parser that can arise when the depth counter starts at 0 — a path in the static
@@ -23,5 +24,28 @@ Theorem C02_tokenizer_stack_bounded :
     length s <= 2 * (max_rank tokenizer_ranks + 1).
 Proof. exact (fun s => stack_depth_bounded tokenizer_edges tokenizer_guards tokenizer_known tokenizer_ranks tokenizer_rank_ok s 0). Qed.
 
+(* ---- size and token limits (tokenizer model Model/Lexer.v, tied byte-for-byte by the C04 correspondence), for
+   every value of the two limits ---- *)
+(* input longer than the size limit is rejected with the dedicated error E1006 ... *)
+Theorem C02_size_limit :
+  forall max_in max_tok bs, (max_in < N.of_nat (length bs))%N -> tokenize_with max_in max_tok bs = Err E_InputTooLarge 1 1.
+Proof. exact size_limit_reject. Qed.
+
+(* ... and input at or below the limit (exactly at it in particular) is not affected by the size limit at all *)
+Theorem C02_size_limit_exact :
+  forall m1 m2 max_tok bs, (N.of_nat (length bs) <= m1)%N -> (N.of_nat (length bs) <= m2)%N ->
+  tokenize_with m1 max_tok bs = tokenize_with m2 max_tok bs.
+Proof. exact size_limit_exact. Qed.
+
+(* no successful run returns more than max_tok tokens plus the end marker (the converse, E1007 exactly when the
+   limit is exceeded, is decided on the implementation by the boundary exploration of lib/c02.py) *)
+Theorem C02_token_limit_bound_partial :
+  forall max_in max_tok bs toks cms, tokenize_with max_in max_tok bs = Val (toks, cms) ->
+  (N.of_nat (length toks) <= max_tok + 1)%N.
+Proof. exact token_limit_bound. Qed.
+
 Print Assumptions C02_parser_stack_bounded.
 Print Assumptions C02_tokenizer_stack_bounded.
+Print Assumptions C02_size_limit.
+Print Assumptions C02_size_limit_exact.
+Print Assumptions C02_token_limit_bound_partial.
